@@ -15,8 +15,19 @@ class ExtentError(IndexError):
     pass
 
 
+VIOLATIONS = []      # out-of-extent accesses recorded in lenient mode
+STRICT = [True]
+
+
+def _violation(msg):
+    if STRICT[0]:
+        raise ExtentError(msg)
+    VIOLATIONS.append(msg)
+
+
 class CArr:
-    """fixed-extent C array (flattened, row-major); index beyond the declared extent is an ExtentError"""
+    """fixed-extent C array (flattened, row-major); index beyond the declared extent is an ExtentError
+    (lenient mode: recorded in VIOLATIONS and served from an overflow area, as adjacent stack memory would)"""
 
     def __init__(self, shape, name='?'):
         self.shape = tuple(shape) if isinstance(shape, (tuple, list)) else (shape,)
@@ -27,6 +38,7 @@ class CArr:
         self.data = [None] * n
         self.name = name
         self.writes = 0
+        self.overflow = {}
 
     def _flat(self, idx):
         if isinstance(idx, tuple):
@@ -38,13 +50,16 @@ class CArr:
             return _Row(self, int(i))
         i = int(i)
         if not (0 <= i < self.extent):
-            raise ExtentError('read %s[%d] beyond declared extent %d' % (self.name, i, self.extent))
+            _violation('read %s[%d] beyond declared extent %d' % (self.name, i, self.extent))
+            return self.overflow.get(i)
         return self.data[i]
 
     def __setitem__(self, i, v):
         i = int(i)
         if not (0 <= i < self.extent):
-            raise ExtentError('write %s[%d] beyond declared extent %d' % (self.name, i, self.extent))
+            _violation('write %s[%d] beyond declared extent %d' % (self.name, i, self.extent))
+            self.overflow[i] = v
+            return
         self.writes += 1
         self.data[i] = v
 
@@ -85,13 +100,17 @@ class Ptr:
     def __getitem__(self, i):
         k = self.off + int(i)
         if not (0 <= k < self._ext()):
-            raise ExtentError('pointer read at offset %d beyond extent %d of %s' % (k, self._ext(), getattr(self.base, 'name', 'buffer')))
+            _violation('pointer read at offset %d beyond extent %d of %s' % (k, self._ext(), getattr(self.base, 'name', 'buffer')))
+            return self.base.overflow.get(k) if isinstance(self.base, CArr) else None
         return self.base.data[k] if isinstance(self.base, CArr) else self.base[k]
 
     def __setitem__(self, i, v):
         k = self.off + int(i)
         if not (0 <= k < self._ext()):
-            raise ExtentError('pointer write at offset %d beyond extent %d of %s' % (k, self._ext(), getattr(self.base, 'name', 'buffer')))
+            _violation('pointer write at offset %d beyond extent %d of %s' % (k, self._ext(), getattr(self.base, 'name', 'buffer')))
+            if isinstance(self.base, CArr):
+                self.base.overflow[k] = v
+            return
         if isinstance(self.base, CArr):
             self.base.data[k] = v
             self.base.writes += 1
